@@ -249,9 +249,70 @@ def eval_e2e(case, rng, thorough):
                 files=dict(files, **{"out.pcapng": res.out}))
 
 
+def eval_long(case, rng, thorough):
+    """long-range deliveries: thousands of segments in one direction, exact duplicates that arrive hundreds to thousands of segments after their
+    original, displaced segments - anything bounded in the implementation (windows, caches of seen segments, counters) is crossed"""
+    v, code, name, p = suites.pick(rng)
+    nseg = rng.choice([300, 1100, 1500, 2300] + ([4200, 5000] if thorough else []))
+    segsize = rng.choice([7, 16, 23, 40])
+    d = rng.choice("cs")
+    total = nseg * segsize
+    app = [("c", rng.randbytes(rng.randrange(1, 200)))]
+    while total > 0:
+        n = min(total, rng.choice([segsize, 700, 4000, 16000]))
+        app.append((d, rng.randbytes(n)))
+        total -= n
+        if rng.random() < 0.1:
+            app.append(("s" if d == "c" else "c", rng.randbytes(rng.randrange(1, 60))))
+    spec = tlssynth.Spec(version=v, suite=code, app=app)
+    conn = tlssynth.build_conn(spec, rng)
+    ep = tcpcap.random_ep(rng)
+    wrap = rng.random() < 0.3
+    if wrap:
+        tot = sum(len(e.wire) for e in conn.events if e.dir == d)
+        isn = (1 << 32) - 1 - rng.randrange(0, tot + 1)
+        if d == "c":
+            ep.cisn = isn
+        else:
+            ep.sisn = isn
+    segs = tcpcap.segments(conn.events, ep, tcpcap.cut_bytes(segsize, budget=nseg * 3))
+    out_segs = list(segs)
+    idx = [i for i, s_ in enumerate(out_segs) if s_.payload and s_.dir == d]
+    ndup = rng.choice([1, 2, 4])
+    dists = []
+    for _ in range(ndup):
+        i = rng.choice(idx[: max(1, len(idx) // 4)])
+        dist = rng.choice([200, 1000, 1023, 1024, 1025, 1100, 1500, 2000, 3000, 4100])
+        j = min(len(out_segs) - rng.randrange(0, 3), i + dist)      # always before the end so that something completes afterwards
+        j = max(j, i + 1)
+        s_ = out_segs[i]
+        out_segs.insert(j, tcpcap.Seg(s_.dir, s_.seq, s_.ack, s_.flags, s_.payload, s_.woff, s_.burst, True))
+        dists.append(j - i)
+    ndis = rng.choice([0, 0, 2])
+    pert = tcpcap.displace(out_segs, rng, ndis, maxdist=2, allow_first=False)
+    fl = scene.tls_flow(conn, ep, pert)
+    items = scene.stamp(scene.merge([fl], rng, "concat"), rng)
+    res, files, argv = e2e.run_capture(scene.capture(items), scene.keylog_text([fl], rng), cpu=300)
+    nd = sum(1 for s_ in segs if s_.payload and s_.dir == d)
+    out = {"cls": ["long", suites.VNAME[v], p["mode"], nseg, segsize, d, f"dup{ndup}", f"maxdist{max(dists) // 500 * 500}", "wrap" if wrap else ""],
+           "tags": ["e2e:long"], "nontrivial": len(conn.truth[d]) > 0, "mon": {"max_segments_in_one_direction": nd, "max_duplicate_distance": max(dists)},
+           "sample": {"case": case["id"], "version": suites.VNAME[v], "suite": name, "segments_in_direction": nd, "segment_size": segsize, "direction": d,
+                      "duplicate_distances": dists, "displaced": ndis, "wrap": wrap}}
+    fail = e2e.run_failed(res)
+    if fail:
+        return dict(out, v="inconclusive" if fail.startswith("INCONCLUSIVE") else "violated", msg=fail, files=files)
+    msgs = e2e.check_tls_streams(outparse.Analysis(res.out), conn, ep)
+    if msgs:
+        return dict(out, v="violated", msg=f"{suites.VNAME[v]} {name}: {nd} segments of {segsize} bytes in direction {d}, exact duplicates {dists} segments after their originals, "
+                    f"{ndis} displaced, wrap={wrap}: " + "; ".join(msgs[:2]), files=dict(files, **{"out.pcapng": res.out}))
+    return dict(out, v="held")
+
+
 def build(tier, seed):
     thorough = tier == "thorough"
     cases = []
+    for i in range(120 if thorough else 16):
+        cases.append({"id": f"long-{i}", "kind": "long"})      # first: they are the slowest cases
     for d in "cs":
         for wrap in (False, True):
             for lens in ([1, 0, 3], [0, 0, 0], [4], [2, 2]) if not thorough else ([1, 0, 3], [0, 0, 0], [4], [2, 2], [9], [0, 4], [3, 1, 0], [1, 1, 1]):
@@ -268,11 +329,14 @@ def build(tier, seed):
         rng = random.Random(engine.subseed("C05", seed, case["id"]))
         if case["kind"] == "e2e":
             return eval_e2e(case, rng, thorough)
+        if case["kind"] == "long":
+            return eval_long(case, rng, thorough)
         return eval_direct(case, rng, thorough)
 
     return dict(cases=cases, evalfn=evalfn, level="exploration", min_nontrivial=100,
                 rule="direct: all 2^(n-1) cut sets of 8..14-byte streams of 1-3 tiny records in either direction with and without sequence wrap; every single and "
                      "double duplicate insertion into deliveries of <= 8 segments; every displacement of one segment by 1..3 positions (record-aligned, random and "
-                     "1-byte cuts); e2e: random suites/versions with record-aligned/random/MSS/k-byte cuts, 0-5 duplicates, 0-4 displaced segments, wrapping ISNs. "
+                     "1-byte cuts); e2e: random suites/versions with record-aligned/random/MSS/k-byte cuts, 0-5 duplicates, 0-4 displaced segments, wrapping ISNs; "
+                     "long: 300..2300 (thorough ..5000) segments in one direction with exact duplicates 200..4100 segments after their originals. "
                      "Class = (level, perturbation kind, parameters, outcome); non-trivial = a perturbed delivery was run and its record list / streams compared",
                 assumptions=["segments of one direction never overlap partially (retransmissions are exact duplicates), as the property states"])
